@@ -28,9 +28,9 @@ func init() {
 		Assumptions: []string{"the global math/rand source is seeded with rand.Seed before each run", "sequential executor only"},
 		Cases: func(tier string) int {
 			if tier == "quick" {
-				return 32
+				return 256
 			}
-			return 480
+			return 1920
 		},
 		Run:        runC17,
 		Required:   []string{"runs.in_process", "runs.cross_process", "scenarios.random_population", "scenarios.spawned", "epochs.compared"},
@@ -165,11 +165,11 @@ func unrelatedWork(seed int64) {
 func c17Dump(tier string, seed int64, idx int) int {
 	sc, libSeed := c17Scenario(seed, idx)
 	res := c17Execute(sc, libSeed)
+	// the hashes of the epochs completed before a failure are part of the outcome too
+	fmt.Println("HASHES", strings.Join(res.hashes, " "))
 	if res.errText != "" {
 		fmt.Println("ERROR", res.errText)
-		return 0
 	}
-	fmt.Println(strings.Join(res.hashes, " "))
 	return 0
 }
 
@@ -236,14 +236,21 @@ func runC17(c *Ctx, idx int) {
 		if err != nil {
 			return nil, "helper process failed: " + err.Error()
 		}
-		line := strings.TrimSpace(string(out))
-		if strings.HasPrefix(line, "ERROR") {
-			return nil, strings.TrimSpace(strings.TrimPrefix(line, "ERROR"))
+		var hashes []string
+		errText, seen := "", false
+		for _, line := range strings.Split(string(out), "\n") {
+			line = strings.TrimSpace(line)
+			if strings.HasPrefix(line, "HASHES") {
+				hashes = strings.Fields(strings.TrimPrefix(line, "HASHES"))
+				seen = true
+			} else if strings.HasPrefix(line, "ERROR") {
+				errText = strings.TrimSpace(strings.TrimPrefix(line, "ERROR"))
+			}
 		}
-		if line == "" {
-			return nil, ""
+		if !seen {
+			return nil, "helper process failed: no output"
 		}
-		return strings.Fields(line), ""
+		return hashes, errText
 	}
 	p1, e1 := runProc()
 	p2, e2 := runProc("GOGC=1", "GOMAXPROCS=1")
